@@ -324,6 +324,8 @@ pub enum P {
     Pure(Val),
     PureWith(Result<Val, String>),
     Fail(String),
+    /// `literal(s).anywhere()`: consumes the first item equal to `s` wherever it stands
+    LiteralAnywhere(String),
 }
 
 #[derive(Clone, Debug, PartialEq, Eq, Hash, Serialize, Deserialize, Default)]
@@ -729,6 +731,7 @@ pub fn build_p(p: &P) -> BP {
             pure_with(move || r.clone()).boxed()
         }
         P::Fail(m) => fail::<Val>(intern(m)).boxed(),
+        P::LiteralAnywhere(s) => literal(intern(s)).anywhere().map(|_| Val::U).boxed(),
     }
 }
 
